@@ -43,7 +43,7 @@ def lean_check(pid, spec, log):
     theorems = spec["theorems"]
     failures = []
     with Lock("lake"):
-        rc, out = sh(["lake", "build", spec["module"], "driver"], cwd=LEAN)
+        rc, out = sh(["lake", "build", spec["module"], "driver"] + spec.get("extra_modules", []), cwd=LEAN)
     log.append(out[-3000:])
     if rc != 0:
         m = re.findall(r"error: ([^\n]*\n?[^\n]*)", out)
@@ -53,6 +53,8 @@ def lean_check(pid, spec, log):
     af = os.path.join(BUILD, "audit", pid + ".lean")
     with open(af, "w") as f:
         f.write("import %s\n" % spec["module"])
+        for em in spec.get("extra_modules", []):
+            f.write("import %s\n" % em)
         for t in theorems:
             f.write("#print axioms %s\n" % t)
     rc, out = sh(["lake", "env", "lean", af], cwd=LEAN)
